@@ -264,8 +264,8 @@ def mol_case(draw):
     if k == 1:
         m.mix = ("abs", float(draw(st.sampled_from([500, 1234.5, 5e7, 0.5]))))
     elif k == 2:
-        m.mix = ("pct", float(draw(st.sampled_from([50, 12.5, 100, 0.1]))))
-    m.mix_style = draw(st.sampled_from(["plain", "float", "exp"]))
+        m.mix = ("pct", float(draw(st.sampled_from([50, 12.5, 100, 0.1, 0.25]))))
+    m.mix_style = draw(st.sampled_from(["plain", "float", "exp", "nolead"]))
     return m
 
 
